@@ -4,7 +4,7 @@
    callback sequence (C06) and history (C12) for replay into the six entry points.            *)
 EXTENDS Layers, TLC, Json
 CONSTANTS NLay,         \* number of layers
-          NameSet,      \* drop-in names in play (subset of 1..7)
+          NameSet,      \* drop-in names in play (subset of 1..9)
           MaxDrops,     \* bound on the total number of drop-in files in a tree
           Shapes,       \* set of two-letter strings: main shape, drop-in shape (b both, n group-less, s section)
           Export
